@@ -35,10 +35,11 @@ def NOT(x):
     return z3.Not(x)
 
 
-def slot(alts):
-    """alts: list of (cond, word) with mutually exclusive conds; adds the empty alternative"""
+def slot(alts, none_if=None):
+    """alts: list of (cond, word) with mutually exclusive conds; adds the empty alternative.
+    none_if: a simple condition known to be equivalent to 'no alternative applies' (keeps big slots cheap)"""
     alts = [(c, w) for c, w in alts if c is not False]
-    rest = NOT(OR(*[c for c, _ in alts]))
+    rest = NOT(OR(*[c for c, _ in alts])) if none_if is None else none_if
     out = list(alts)
     if rest is not False:
         out.append((rest, None))
@@ -128,7 +129,15 @@ def concrete_phrase(slots, m):
 def decimal_matches(ret_str, digs: Digits, suffix=''):
     """z3 Bool: the String value ret_str (Python str or SymStr) equals decimal(n) ++ suffix"""
     from mirsym.strings import to_symstr
-    from mirsym.values import bv, is_sym
+    from mirsym.values import bv, is_sym, Choice
+    if isinstance(ret_str, Choice):
+        alts = []
+        seen = z3.BoolVal(False)
+        for c, v in ret_str.alts:
+            cz = z3.BoolVal(c) if isinstance(c, bool) else c
+            alts.append(z3.And(cz, z3.Not(seen), decimal_matches(v, digs, suffix)))
+            seen = z3.Or(seen, cz)
+        return z3.Or(*alts)
     s = to_symstr(ret_str).seq
     L = digs.sig_len()
     sb = suffix.encode('utf-8')
